@@ -151,6 +151,7 @@ class ListOf(Spec):
     def make(self, name, ctx):
         n = z3.Int(name + '_len')
         ctx.assume(n >= 0)
+        ctx.len_vars.append(n)
         if self.kind == 'float':
             arr = z3.Array(name, z3.IntSort(), z3.RealSort())
             nanarr = z3.Array(name + '_nan', z3.IntSort(), z3.BoolSort())
@@ -209,7 +210,8 @@ def _as_dict(x, default='c'):
 class Contract:
     def __init__(self, qualname, params=None, cases=None, requires=None, ensures=None, raises=None,
                  result=None, loops=None, canaries=None, inline=False, hints=None, notes='',
-                 modular_raises=None, properties=(), native_call=None, frame=None, local_models=None):
+                 modular_raises=None, properties=(), native_call=None, frame=None, local_models=None,
+                 native_oracle=None):
         self.qualname = qualname
         self.params = params or {}
         #: list of (label, {param: Spec}) overriding `params`; each case is explored separately
@@ -228,6 +230,8 @@ class Contract:
         self.properties = tuple(properties)   # property ids this contract serves
         self.native_call = native_call    # f(**native_args) -> native result (replay adapter)
         self.frame = frame
+        #: f(**model_values) -> (outcome, failed_clauses): custom replay adapter + independent native oracle
+        self.native_oracle = native_oracle
         #: local name -> factory of a typed model for `name = []` (an empty list literal carries no element type)
         self.local_models = local_models or {}
 
